@@ -14,10 +14,10 @@ LOW = [
     {"gen": "escbytes", "quick": "-depth 4 -n 3000", "thorough": "-depth 6 -n 50000"},
 ]
 BUF = [
-    {"gen": "buffer", "quick": "-depth 2 -n 30000", "thorough": "-depth 3 -n 300000"},
+    {"gen": "buffer", "quick": "-depth 2 -n 30000", "thorough": "-depth 3 -n 300000", "shards": 8},
 ]
 BUFINV = [
-    {"gen": "buffer-invalid-runes", "quick": "-depth 1 -n 20000", "thorough": "-depth 2 -n 200000"},
+    {"gen": "buffer-invalid-runes", "quick": "-depth 1 -n 20000", "thorough": "-depth 2 -n 200000", "shards": 8},
 ]
 MARKERS = [
     {"gen": "markers", "quick": "-depth 5 -n 5000", "thorough": "-depth 8 -n 100000"},
